@@ -10,3 +10,6 @@ func TestReplay(t *testing.T) { ReplayMain(t) }
 
 // TestKillChild is the child process of the createkill engine (SIM_KILL_SPEC=<file>).
 func TestKillChild(t *testing.T) { KillChildMain(t) }
+
+// TestFailStopChild is the child process of the failstop engine.
+func TestFailStopChild(t *testing.T) { FailStopChildMain(t) }
